@@ -27,10 +27,7 @@ pub const ALPHABET: &[(&str, &str)] = &[
     ("frag-paren", "token A; start s; s: ("),
     ("empty", ""),
     // non-ASCII: BMP char and surrogate pair in a comment and in a string, stray `é` outside
-    (
-        "unicode",
-        "// é😀\ntoken A='😀é';\nstart s;\ns: A é '😀é';\n",
-    ),
+    ("unicode", "// é😀\ntoken A='😀é';\nstart s;\ns: A é '😀é';\n"),
     ("unterminated-string", "token A='a;\nstart s;\ns: A;\n"),
     ("unterminated-comment", "token A;\nstart s;\ns: A; /* x\n"),
     ("crlf", "token A;\r\nstart s;\r\ns: A x;\r\n"),
@@ -191,7 +188,9 @@ impl Event {
     }
     pub fn doc(&self) -> usize {
         match self {
-            Event::Open { doc, .. } | Event::Change { doc, .. } | Event::Close { doc } | Event::Request { doc, .. } => *doc,
+            Event::Open { doc, .. } | Event::Change { doc, .. } | Event::Close { doc } | Event::Request { doc, .. } => {
+                *doc
+            }
         }
     }
     pub fn to_json(&self) -> serde_json::Value {
@@ -203,7 +202,9 @@ impl Event {
             Event::Close { .. } => json!({"ev": "close", "doc": d}),
             Event::Request { req, .. } => match req {
                 Req::Formatting => json!({"ev": "formatting", "doc": d}),
-                Req::References(l, c, w) => json!({"ev": "references", "doc": d, "line": l, "character": c, "with_decl": w}),
+                Req::References(l, c, w) => {
+                    json!({"ev": "references", "doc": d, "line": l, "character": c, "with_decl": w})
+                }
                 r => {
                     let (l, c) = r.pos().unwrap();
                     json!({"ev": r.kind(), "doc": d, "line": l, "character": c})
@@ -223,11 +224,26 @@ impl Event {
             "open" => Event::Open { doc, text: text()? },
             "change" => Event::Change { doc, text: text()? },
             "close" => Event::Close { doc },
-            "formatting" => Event::Request { doc, req: Req::Formatting },
-            "hover" => Event::Request { doc, req: Req::Hover(pos()?.0, pos()?.1) },
-            "definition" => Event::Request { doc, req: Req::Definition(pos()?.0, pos()?.1) },
-            "completion" => Event::Request { doc, req: Req::Completion(pos()?.0, pos()?.1) },
-            "references" => Event::Request { doc, req: Req::References(pos()?.0, pos()?.1, v["with_decl"].as_bool()?) },
+            "formatting" => Event::Request {
+                doc,
+                req: Req::Formatting,
+            },
+            "hover" => Event::Request {
+                doc,
+                req: Req::Hover(pos()?.0, pos()?.1),
+            },
+            "definition" => Event::Request {
+                doc,
+                req: Req::Definition(pos()?.0, pos()?.1),
+            },
+            "completion" => Event::Request {
+                doc,
+                req: Req::Completion(pos()?.0, pos()?.1),
+            },
+            "references" => Event::Request {
+                doc,
+                req: Req::References(pos()?.0, pos()?.1, v["with_decl"].as_bool()?),
+            },
             _ => return None,
         })
     }
